@@ -505,6 +505,11 @@ def suffix_loop(prog, R):
             child = a
         if inner_loop:
             continue
+        if consumed is not None:
+            # nothing can follow an `f` suffix in a valid literal: leaving after it changes the reading of ill-formed input only
+            fs = [(noid(k).replace(" ", ""), pol) for (k, pol) in f.cfg.facts_at(consumed)]
+            if any(pol and k in ("(C=='F')", "(C==70)", "('F'==C)") for (k, pol) in fs):
+                consumed = None
         n_br += 1
         R.ob("C12-R11", consumed is None, f.q, "suffix-loop:break only before anything of this round was consumed", f.site(br),
              "the loop is left with the cursor where the round found it" if consumed is None else
